@@ -46,6 +46,12 @@ def scenarios(tier, seed):
     return out
 
 
+def models(tier, seed):
+    return [dict(module="D_Crossbar", cfg="MC_Crossbar_quick.cfg", label="crossbar routing/lock (3 masters x 2 banks)", workers=4, timeout=2400),
+            dict(module="D_Crossbar", cfg="MC_Crossbar_neg_hidden.cfg", label="negative control: lock hole of a buffered FIFO (defect fixed in 1c2d839)",
+                 workers=2, timeout=1200, expect_violation=True)]
+
+
 def execute(sc, workdir):
     r = execute_core(sc, workdir, ID, ("mem",))
     k = r["kinds"]
